@@ -5,11 +5,14 @@
   (`excStart`, `pulseStep`, `periodOfLf0`, `rnd`) and about the mixed-excitation ring buffer: one call of
   `excGet` is one overlap-add step with contribution `pulse·h + noise·(δ_centre − h)` (voiced) or the noise
   at the centre tap (unvoiced), and an overlap-add buffer is a convolver — together: the excitation is
-  `h*pulses + (δ−h)*noise`. The noise statistics (zero mean, unit variance of one fixed pseudo-random
+  `h*pulses + (δ−h)*noise`. The unit mean power of the pulse
+  train is a theorem too (`pulse_train_unit_power`: over any number of samples at a constant period the energy differs
+  from the sample count by less than one period). The noise statistics (zero mean, unit variance of one fixed pseudo-random
   sequence) are decided by execution.
 -/
 import Jb.Proofs.Excitation
 import Jb.Proofs.Ring
+import Jb.Proofs.PulsePower
 
 set_option linter.unusedSectionVars false
 
@@ -95,5 +98,31 @@ theorem fixed_first_gap_exact : let p : ℚ := 3; let c : ℚ := 1
 theorem counter_above_one_shortens_gap : let p : ℚ := 20; let c : ℚ := 3 / 2
     (¬ p < c + 18) ∧ p < c + 19 := by
   norm_num
+
+/-! ### unit mean power of the pulse train -/
+
+/-- **Energy bookkeeping.** Over `n` samples at a constant period `p ≥ 1`, starting with the counter in `(0, p]`, the
+    energy of the pulse train is exactly `n + c₀ − c_n` (`c` the counter), the counter stays in `(0, p]` and the
+    period is untouched. -/
+theorem pulse_train_energy (e : ExcSt K) (hp : 1 ≤ e.pitchOfCurr) (hc0 : 0 < e.pitchCounter)
+    (hc : e.pitchCounter ≤ e.pitchOfCurr)
+    (hsqrt : Transc.sqrt e.pitchOfCurr * Transc.sqrt e.pitchOfCurr = e.pitchOfCurr) (n : Nat) :
+    ((pulseRun e n).1.map fun x => x * x).sum = (n : K) + e.pitchCounter - (pulseRun e n).2.pitchCounter ∧
+    0 < (pulseRun e n).2.pitchCounter ∧ (pulseRun e n).2.pitchCounter ≤ e.pitchOfCurr ∧
+    (pulseRun e n).2.pitchOfCurr = e.pitchOfCurr :=
+  pulse_energy e hp hc0 hc hsqrt n
+
+/-- **Mean power 1**: the energy of any `n` samples differs from `n` by less than one period, so the mean power tends
+    to 1 (it is within `p/n` of 1) — the height `sqrt(T0)` is exactly what a spacing of `T0` needs. -/
+theorem pulse_train_unit_power (e : ExcSt K) (hp : 1 ≤ e.pitchOfCurr) (hc0 : 0 < e.pitchCounter)
+    (hc : e.pitchCounter ≤ e.pitchOfCurr)
+    (hsqrt : Transc.sqrt e.pitchOfCurr * Transc.sqrt e.pitchOfCurr = e.pitchOfCurr) (n : Nat) :
+    |((pulseRun e n).1.map fun x => x * x).sum - (n : K)| < e.pitchOfCurr :=
+  pulse_mean_power e hp hc0 hc hsqrt n
+
+/-- every sample of the train is `0` or `sqrt(T0)` -/
+theorem pulse_train_values (e : ExcSt K) (n : Nat) :
+    ∀ x ∈ (pulseRun e n).1, x = 0 ∨ x = Transc.sqrt e.pitchOfCurr :=
+  pulse_values e n
 
 end Jb.C07
